@@ -212,4 +212,55 @@ theorem runSchedND_counters (l : List Bool) (hl : ∀ d ∈ l, d = false) {s s' 
         obtain ⟨_, rfl⟩ := h
         exact (tickND_counters ht).trans (ih (fun d hd => hl d (by simp [hd])) hr)
 
+/-! the same directly on the code's loop (no well-formedness needed) -/
+
+theorem popIterND_counters {n : Nat} {s s' : QState} {w : List Cell}
+    (h : popIterND n s = .ok (w, s')) : SameCounters s s' := by
+  rw [popIterND_eq_G] at h
+  unfold popIterG at h
+  have triv : ∀ {t : QState}, t.ordering = s.ordering → t.complete = s.complete → t.data = s.data →
+      SameCounters s t := fun h1 h2 h3 => ⟨h1, h2, fun k => by simp only [trialsOf, h3]⟩
+  split at h
+  · simp only [Except.ok.injEq, Prod.mk.injEq] at h; obtain ⟨_, rfl⟩ := h; exact triv rfl rfl rfl
+  · split at h
+    · split at h
+      · simp only [Except.ok.injEq, Prod.mk.injEq] at h; obtain ⟨_, rfl⟩ := h; exact triv rfl rfl rfl
+      · dsimp only at h
+        split at h <;>
+          (simp only [Except.ok.injEq, Prod.mk.injEq] at h; obtain ⟨_, rfl⟩ := h; exact triv rfl rfl rfl)
+    · split at h
+      · simp only [Except.ok.injEq, Prod.mk.injEq] at h; obtain ⟨_, rfl⟩ := h; exact triv rfl rfl rfl
+      · split at h
+        · simp at h
+        · simp only [Except.ok.injEq, Prod.mk.injEq] at h; obtain ⟨_, rfl⟩ := h; exact triv rfl rfl rfl
+        · rename_i s1 hn
+          simp only [Except.ok.injEq, Prod.mk.injEq] at h
+          obtain ⟨_, rfl⟩ := h
+          exact nextTrialND_counters hn
+
+theorem popLoopND_counters (fuel n : Nat) {s s' : QState} {out : List Cell}
+    (h : popLoopND fuel n s = .ok (out, s')) : SameCounters s s' := by
+  induction fuel generalizing n s out with
+  | zero =>
+    cases n with
+    | zero => simp [popLoopND] at h; obtain ⟨_, rfl⟩ := h; exact SameCounters.refl _
+    | succ n => simp [popLoopND] at h
+  | succ fuel ih =>
+    cases n with
+    | zero => simp [popLoopND] at h; obtain ⟨_, rfl⟩ := h; exact SameCounters.refl _
+    | succ n =>
+      rw [popLoopND] at h
+      cases h1 : popIterND (n + 1) s with
+      | error e => simp [h1] at h
+      | ok r =>
+        obtain ⟨w, s1⟩ := r
+        simp only [h1] at h
+        cases h2 : popLoopND fuel (n + 1 - w.length) s1 with
+        | error e => simp [h2] at h
+        | ok r2 =>
+          obtain ⟨ws, s2⟩ := r2
+          simp only [h2, Except.ok.injEq, Prod.mk.injEq] at h
+          obtain ⟨_, rfl⟩ := h
+          exact (popIterND_counters h1).trans (ih _ h2)
+
 end Psi.Queue
